@@ -2,7 +2,7 @@
 from .. import explore, streams
 from ..core import Check, Space
 
-DERIVE = ["Select", "Where", "SelectMany", "Select2", "SelectSame", "SelectAst", "SelectCall", "MD0", "MD1", "QMD", "Awk"]
+DERIVE = ["Select", "Where", "SelectMany", "Select2", "SelectSame", "SelectAst", "SelectAstSame", "SelectCall", "MD0", "MD1", "QMD", "Awk"]
 DERIVE_T = DERIVE + ["TTree", "Pandas", "Parquet", "WhereCall"]
 EXEC = ["Value"]
 EXEC_T = ["Value", "ValueAsync", "ValueT"]
